@@ -190,6 +190,14 @@ func init() {
 		leakFamily("throw-after-return-in-try", "fn h(p: int) -> int { try { if p % 2 == 0 { return 1; } } catch e { } 2 }", `try { y = y + h(i); if i % 3 == 0 { throw("t"); } y = y + 1; } catch e2 { y = y + 10; }`),
 		leakFamily("throw-after-break-in-try", "", `try { let k = 0; loop { k = k + 1; try { if k > 1 { break; } } catch e { y = 0; } } if i % 2 == 0 { throw("t"); } } catch e3 { y = y + 1; }`),
 		leakFamily("throw-after-continue-in-try", "", `try { for j in 0..3 { try { if j == 1 { continue; } y = y + 1; } catch e { y = 0; } } throw("t"); } catch e4 { y = y + 1; }`),
+		leakFamily("spawn-result-in-let", "fn w(x: int) { let z = x + 1; }", `let h = spawn w(i);`),
+		leakFamily("throw-out-of-for-in-try", "", `try { for j in 0..5 { if j == 2 { throw("t"); } y = y + 1; } } catch e { y = y + 1; }`),
+		leakFamily("throw-out-of-nested-for-in-try", "", `try { for j in [1, 2, 3] { for k in "ab" { if j == 2 { throw("t"); } } } } catch e { y = y + 1; }`),
+		leakFamily("catch-breaks-loop", "", `let k = 0; loop { k = k + 1; try { if k > 1 { throw("t"); } } catch e { break; } }`),
+		leakFamily("index-assign", "", `let l = [1, 2, 3]; l[1] = i; l[0] += l[1]; y = y + l[0];`),
+		leakFamily("compound-assign-call", "fn f(x: int) -> int { x + 1 }", `y += f(i); y -= f(1); y *= 1;`),
+		leakFamily("string-members-unused", "", `"a,b,c".split(","); "abc".len(); i.to_string().len();`),
+		leakFamily("return-in-for-in-for", "fn pick(n: int) -> int { for a in 0..4 { for b in [1, 2, 3] { if a + b == n % 6 { return a * b; } } } 0 }", `y = y + pick(i);`),
 		leakFamily("for-list-continue", "", `for e in [1, 2, 3, 4] { if e % 2 == 0 { continue; } y = y + e; }`),
 		leakFamily("for-string", "", `for ch in "abc" { if ch == "b" { continue; } y = y + 1; }`),
 		leakFamily("while-break-nested-block", "", `let k = 0; while k < 5 { k = k + 1; { let t = k * 2; if t > 4 { break; } } }`),
